@@ -122,7 +122,7 @@ def seeds():
     j3 = '{\n  "a": [\n    1,\n    2\n  ],\n  "b": {\n    "c": "x y",\n    "d": null\n  },\n  "ü": "中文"\n}\n'
     j4 = '"just a string with ünïcödé"'
     f1 = ("{a: 1, 'b': [1, 2, 3,], c: {d: 'x', /* comment */ e: null,}, // trailing\n"
-          " \"ü\": \"Zoë\", hex: 0x1F, inf: +Infinity,}")
+          " \"ü\": \"Zoë\", hex: 0x1F, neg: -.5, exp: +1e3, s: 'it\\'s',}")
     f2 = "[1, .5, 'single', \"double\", {k: true}, ]"
     y1 = ('name: Zoë\ntags:\n  - α\n  - "β quoted"\n  - \'single\'\nnested:\n  a: [1, 2, {b: []}]\n'
           '  s: |\n    literal\n    block\nanchors: &x {k: v}\nref: *x\n')
@@ -236,8 +236,9 @@ def gen_cases(tier, rng, per_format):
             rest = [c for c in uniq if not c[3]]
             rng.shuffle(pri)
             rng.shuffle(rest)
-            pick = pri[:per_format * 2 // 3]
-            pick += rest[:max(0, per_format - len(pick))]
+            cap = per_format // 2 if ft == 'json5' else per_format   # the json5 library is slow (pure Python)
+            pick = pri[:cap * 2 // 3]
+            pick += rest[:max(0, cap - len(pick))]
         else:
             pick = uniq
         kept = 0
@@ -365,6 +366,22 @@ def run_cases(run, wd, cases, st, kfs, attrs, tag='cases'):
     return keep, bad[0], corr_bad, bad[1], bad[2], kf_hits
 
 
+def validate_seeds(run, wd, attrs):
+    """Harness sanity (not a verdict): every seed document must load in graphtage and diff equal to itself."""
+    items = []
+    for ft in TEXT_TYPES:
+        for si, doc in enumerate(seeds()[ft]):
+            items.append({'ft': ft, 'pos': 1, 'bad': doc.hex(), 'good': doc.hex(), 'dir': wd.file('impl'),
+                          'name': f'c20_seed_{ft}_{si}', 'attrs': attrs})
+    res = common.run_impl('pC20', 'impl_main', items, extra_env={'PYTHONUTF8': '1'})
+    for it, r in zip(items, res):
+        ok = r is not None and 'ok' in r and r['ok']['status'] == 0 and not r['ok']['loader'] and not r['ok']['other_loader']
+        if not ok:
+            run.violation({'kind': 'internal-error', 'what': 'a seed document does not load', 'ft': it['ft'],
+                           'seed': bytes.fromhex(it['bad']).decode('utf-8', 'replace'), 'result': r})
+    return len(items)
+
+
 def replay_obj(c, rec, what):
     return {'kind': what, 'ft': c['ft'], 'pos': c['pos'], 'corruption': c['kind'], 'bad_hex': c['bad'],
             'good_hex': c['good'], 'bad_text': bytes.fromhex(c['bad']).decode('utf-8', 'replace'),
@@ -410,9 +427,10 @@ def check(tier, seed):
         common.proof_evidence(run, wd, PROP, st, THEOREMS)
         kfs = open_classes()
         attrs = attrs_to_record()
+        run.cov['seed_documents'] = validate_seeds(run, wd, attrs)
         corpus_path = os.path.join(common.VERIF, 'corpus', 'C20.jsonl')
         cases = [json.loads(l) for l in open(corpus_path) if l.strip()] if os.path.exists(corpus_path) else []
-        gen, stats = gen_cases(tier, rng, per_format=int(os.environ.get('C20_PER_FORMAT', '330')))
+        gen, stats = gen_cases(tier, rng, per_format=int(os.environ.get('C20_PER_FORMAT', '240')))
         cases += gen
         keep, bad_holds, bad_corr, bad_raises, accepted, kf_hits = run_cases(run, wd, cases, st, kfs, attrs)
         printed = {}
